@@ -353,6 +353,15 @@ async def _main(case, obs, loop, net):
                     if ev["fetch_in_flight"]:
                         obs.seek_inflight += 1
                     consumer.seek(tp, off)
+                elif kind in ("seek_to_end", "seek_to_beginning"):
+                    tp = tps[op[1] % len(tps)]
+                    ev["tp"] = tpk(*tp)
+                    ev["returned"] = await getattr(consumer, kind)(tp)
+                    ev["t_returned"] = loop._vtime
+                    try:
+                        ev["position_after"] = await asyncio.wait_for(consumer.position(tp), 5.0)
+                    except asyncio.TimeoutError:
+                        ev["position_after"] = None
                 elif kind == "pause":
                     parts = sel(op[1])
                     ev["tps"] = [tpk(*p) for p in parts]
